@@ -54,7 +54,7 @@ PROFILES = {
     "C08": {"proppatch": 12, "delete": 14, "reupload": 8, "restart": 5},
     "C09": {"proppatch": 12, "lock": 6, "reupload": 8, "delete": 9, "untyped": 0.45, "len": 36, "put": 40,
             "get": 8, "manynames": True},
-    "C14": {"invalid": 0.3, "reupload": 16, "put": 40, "grammar": 0.65},
+    "C14": {"invalid": 0.3, "reupload": 16, "put": 40, "grammar": 0.65, "ctparams": 0.6},
     "C15": {"proppatch": 45, "restart": 8, "mk": 6, "delcoll": 3, "put": 12, "propheavy": True},
     "C16": {"mk": 8, "delcoll": 5, "post": 10},
     "C17": {"multiget": 22, "delete": 12},
@@ -183,11 +183,17 @@ def run_random_session(seed, prof, frontend="wsgi", prefix="/", backend="tree", 
                         im = rng.choice(COND_CLASSES)
                         inm = rng.choice(COND_CLASSES)
                 fault = rng.randint(1, 14) if rng.random() < prof["fault"] else 0
-                s.put(c, n, data, im=im, inm=inm, valid=valid, fault=fault)
+                ct = None
+                if rng.random() < prof.get("ctparams", 0.3):
+                    ct = gamma.decorate_ct(rng, gamma.content_type_for(n))
+                s.put(c, n, data, ct=ct, im=im, inm=inm, valid=valid, fault=fault)
             elif op == "post":
                 usevcf = c == "ab1"
                 data, valid = rng.choice(vcf if usevcf else ics)
-                s.post(c, data, "text/vcard" if usevcf else "text/calendar")
+                pct = "text/vcard" if usevcf else "text/calendar"
+                if rng.random() < prof.get("ctparams", 0.3):
+                    pct = gamma.decorate_ct(rng, pct)
+                s.post(c, data, pct)
             elif op == "delete":
                 names = sorted(live) if live and rng.random() < 0.75 else ICS_NAMES + VCF_NAMES
                 n = rng.choice(names)
